@@ -56,6 +56,8 @@ def is_agg(v, kind=None, name=None):
 
 
 def loc_s(loc):
+    if loc[0] == "V":
+        return "view:%s[%s..%s]" % (loc[1][2], loc[1][4][0][1], loc[1][4][1][1])
     base = loc[1] if loc[0] == "O" else "L%s_%s" % (loc[1], loc[2])
     projs = loc[2] if loc[0] == "O" else loc[3]
     return base + "".join("." + str(p) for p in projs)
@@ -85,7 +87,7 @@ def val_ops(v):
 
 
 class State:
-    __slots__ = ("mem", "locks", "events", "facts", "problems", "counter", "guards", "heap")
+    __slots__ = ("mem", "locks", "events", "facts", "problems", "counter", "guards", "heap", "faults")
 
     def __init__(self):
         self.mem = {}      # (fid, local) -> value
@@ -96,6 +98,7 @@ class State:
         self.counter = [0]  # shared across forks: fresh ids never collide
         self.guards = {}   # opaque guard id -> (recv, mode, 'live'|'dropped')
         self.heap = {}     # abstract object cells: loc string -> value
+        self.faults = 0    # number of injected unwinds on this path
 
     def fork(self):
         s = State()
@@ -107,6 +110,7 @@ class State:
         s.counter = self.counter
         s.guards = dict(self.guards)
         s.heap = dict(self.heap)
+        s.faults = self.faults
         return s
 
     def fresh(self, prefix):
@@ -199,6 +203,9 @@ class Interp:
         self.nounwind_extra = set()
         self.npaths = 0
         self.key_is_primitive = True
+        self.max_faults = None    # None = any number of unwinds per path; k = at most k injected unwinds
+        self.loop_limit = LOOP_LIMIT
+        self.lists = {}           # list id -> length (k-bounded list model, see listmodel.py)
 
     # ---- opaque registry ------------------------------------------------
     def mkop(self, loc, ty=None, tag=None):
@@ -258,6 +265,11 @@ class Interp:
 
     # ---- memory -----------------------------------------------------------
     def add_proj(self, loc, p):
+        if loc[0] == "V":
+            v = loc[1]
+            if isinstance(p, str) and p.startswith("[") and p[1:-1].isdigit():
+                return ("O", v[2], ("[%d]" % (v[4][0][1] + int(p[1:-1])),))
+            raise Undecided("projection %r of a modelled slice" % (p,))
         if loc[0] == "L":
             return ("L", loc[1], loc[2], loc[3] + (p,))
         return ("O", loc[1], loc[2] + (p,))
@@ -289,6 +301,8 @@ class Interp:
         return self.fresh_op(st, prefix)
 
     def load(self, st, loc):
+        if loc[0] == "V":
+            return loc[1]
         h = st.heap.get(loc)
         if h is not None:
             return h
@@ -344,6 +358,8 @@ class Interp:
                     loc = self.add_proj(base, "*")
                 elif v[0] == "agg" and v[2].endswith("Box"):
                     loc = self.add_proj(loc, "*")
+                elif v[0] == "agg" and v[1] == "slice":
+                    loc = ("V", v, ())      # a modelled `&[T]`: its pointee is the view itself
                 else:
                     raise Undecided("deref of %r" % (v,))
             elif isinstance(p, int):
@@ -413,6 +429,8 @@ class Interp:
             return self.eval_operand(st, fid, rv["op"])
         if k in ("ref", "rawptr"):
             loc = self.eval_place(st, fid, rv["place"])
+            if loc[0] == "V":
+                return loc[1]
             if k == "ref" and "*" in rv["place"]["p"] and loc[0] == "O" and loc[2] and loc[2][-1] == "cell":
                 self.cell_access(st, loc, rv["mut"], fn, getattr(self, "_cur_line", None))
             return Ref(loc)
@@ -645,7 +663,7 @@ class Interp:
             if self.npaths > PATH_LIMIT * 50:
                 raise Undecided("state explosion in %s" % fn["path"])
             n = visits.get(bb, 0)
-            if n >= LOOP_LIMIT:
+            if n >= self.loop_limit:
                 results.append(("cut", None, st, "loop at bb%d of %s" % (bb, fn["path"])))
                 continue
             visits = dict(visits)
@@ -692,10 +710,12 @@ class Interp:
             if t["msg"] in ("Overflow", "OverflowNeg"):
                 # counters here are bounded by slice lengths; arithmetic overflow is out of scope
                 return [(t["target"], st)]
-            s2 = st.fork()
-            self.emit(s2, {"k": "ASSERT_FAIL", "what": t["msg"]}, fn, t.get("line"))
             out = [(t["target"], st)]
-            out += self.unwind_to(fn, t, s2, results)
+            if self.can_fault(st):
+                s2 = st.fork()
+                s2.faults += 1
+                self.emit(s2, {"k": "ASSERT_FAIL", "what": t["msg"]}, fn, t.get("line"))
+                out += self.unwind_to(fn, t, s2, results)
             return out
         if k == "drop":
             loc = self.eval_place(st, fid, t["place"])
@@ -926,10 +946,14 @@ class Interp:
                 results.append(("cut", None, s2, val))
         return res
 
+    def can_fault(self, st):
+        return self.max_faults is None or st.faults < self.max_faults
+
     def outcomes(self, st, val, may_unwind, what, fn, line):
         out = [("ret", val, st)]
-        if may_unwind:
+        if may_unwind and self.can_fault(st):
             s2 = st.fork()
+            s2.faults += 1
             self.emit(s2, {"k": "UNWIND_AT", "what": what}, fn, line)
             out.append(("unwind", None, s2))
         return out
@@ -1061,7 +1085,9 @@ class Interp:
             return self.outcomes(st, rv, may_unwind, tdef, fn, line)
         m = MODELS.get(d) or MODELS.get(tdef)
         if m is not None:
-            return m(self, st, fn, ce, args, line, depth, dest_ty, may_unwind)
+            out = m(self, st, fn, ce, args, line, depth, dest_ty, may_unwind)
+            if out is not None:
+                return out
         if lfn is not None:
             return self.inline(st, lfn, args, depth)
         # unknown foreign function
@@ -1080,8 +1106,9 @@ class Interp:
             if cur in ("W", "R"):
                 self.problem(st, "ACQ_WHILE_HELD", ev, have=cur)
             outs = []
-            if may_unwind:
+            if may_unwind and self.can_fault(st):
                 s2 = st.fork()
+                s2.faults += 1
                 self.emit(s2, {"k": "UNWIND_AT", "what": "ACQ", "recv": recv}, fn, line)
                 outs.append(("unwind", None, s2))
             st.locks[recv] = mode
@@ -1097,8 +1124,9 @@ class Interp:
             if cur != mode:
                 self.problem(st, "REL_NOT_HELD", ev, have=cur)
             outs = []
-            if may_unwind:
+            if may_unwind and self.can_fault(st):
                 s2 = st.fork()
+                s2.faults += 1
                 self.emit(s2, {"k": "UNWIND_AT", "what": "REL", "recv": recv}, fn, line)
                 s2.locks[recv] = "K"
                 outs.append(("unwind", None, s2))
